@@ -251,9 +251,23 @@ def _finalize(ctx, prog):
         return Interp(prog, assume=assume).run(f)
     r = run(True, False)
     rets = [v for v, l in r.returns if not tm.is_const(l, False)]
+    def bool_table(v: T):
+        """{'false': False, 'true': True, ...} if v is a lookup in a literal
+        word table whose values are all booleans"""
+        if v.op != "sub":
+            return None
+        d = v.args[0]
+        while d.op == "named":
+            d = d.args[1]
+        if d.op != "dict" or not all(
+                tm.is_const(k) and tm.is_const(x) and
+                isinstance(x.args[1], bool) for k, x in d.args):
+            return None
+        return {k.args[1]: x.args[1] for k, x in d.args}
     ok = bool(rets) and all(
         tm.is_const(v, True) or tm.is_const(v, False) or
-        (v.op in ("not", "unop") and v.args[-1] is cfgk) for v in rets)
+        (v.op in ("not", "unop") and v.args[-1] is cfgk) or
+        bool_table(v) is not None for v in rets)
     ctx.ob("C18.2", f, ok,
            "boolean parameters stay boolean: explicit true/false or toggle"
            if ok else f"boolean branch can return "
@@ -273,10 +287,23 @@ def _finalize(ctx, prog):
                     word[y.args[1]] = a
                     if a.args[0] == "NotEq":
                         flipped.add(y.args[1])
-    if set(word) != {"false", "true"}:
-        ctx.undecidable("C18.2", f, f"boolean branch: tests for the words "
-                        f"'true' / 'false' not recognised "
-                        f"({sorted(word)})")
+    tables = [bool_table(v) for v, _ in live_rets
+              if bool_table(v) is not None]
+    if tables:
+        tb = tables[0]
+        okt = tb.get("false") is False and tb.get("true") is True and \
+            any(v.op in ("not", "unop") and v.args[-1] is cfgk
+                for v, _ in live_rets)
+        ctx.ob("C18.2", f, okt,
+               "boolean parameters: word table maps 'false' -> False, "
+               "'true' -> True; any other token toggles the current value"
+               if okt else
+               f"boolean parameters: word table is {tb} / no toggle branch",
+               key="C18.2:bool-words")
+    elif set(word) != {"false", "true"}:
+        ctx.unrecognised("C18.2", f, f"boolean branch: tests for the words "
+                         f"'true' / 'false' not recognised "
+                         f"({sorted(word)})", key="C18.2:bool-words")
     else:
         def leaf(is_false, is_true):
             def env(t):
@@ -592,8 +619,9 @@ def _token_windows(ctx, prog):
                                                 "builtins.enumerate") and
                  e.data["iter"].args[1] and e.data["iter"].args[1][0] is al]
         if len(outer) != 1:
-            ctx.undecidable("C18.10", f, f"{fname}: loop over "
-                            f"enumerate(arg_list) not found")
+            ctx.unrecognised("C18.10", f, f"{fname}: loop over "
+                             f"enumerate(arg_list) not found",
+                             key=f"C18.10:{fname}:not-applied")
             continue
         lid = outer[0].data["lid"]
         idx = T("index", lid)
@@ -604,15 +632,16 @@ def _token_windows(ctx, prog):
         if len(inner) != 1 or (
                 inner[0].data["iter"].op == "call" and
                 len(inner[0].data["iter"].args[1]) != 2):
-            ctx.undecidable("C18.10", f, f"{fname}: value-token loop "
-                            f"`range(start, stop)` / `arg_list[start:]` not "
-                            f"found")
+            ctx.unrecognised("C18.10", f, f"{fname}: value-token loop "
+                             f"`range(start, stop)` / `arg_list[start:]` not "
+                             f"found", key=f"C18.10:{fname}:not-applied")
             continue
         if inner[0].data["iter"].op == "sub":
             lo, hi, st = inner[0].data["iter"].args[1].args
             if st is not tm.NONE or hi is not tm.NONE:
-                ctx.undecidable("C18.10", f, f"{fname}: token slice "
-                                f"{fmt(inner[0].data['iter'])}")
+                ctx.unrecognised("C18.10", f, f"{fname}: token slice "
+                                 f"{fmt(inner[0].data['iter'])}",
+                                 key=f"C18.10:{fname}:not-applied")
                 continue
             a, b = (const(0) if lo is tm.NONE else lo), n_
         else:
@@ -772,8 +801,17 @@ def _generate(ctx, prog):
     # (a) number conversion
     apps = [e for e in r.of_kind("call") if e.data.get("mutates_recv") and
             e.data["name"] == ".append"]
-    ctx.require(bool(apps), "generate: value collection not found")
-    v = apps[0].data["args"][0]
+    if apps:
+        v = apps[0].data["args"][0]
+    else:
+        # values built by a comprehension: its element expression
+        comps = [x for e in r.of_kind("setitem") if e.depth == 0
+                 for x in e.data["value"].walk()
+                 if x.op == "comp" and x.args[0] == "list" and any(
+                     is_call_to(y, MC + "is_number") for y in x.args[1].walk())]
+        ctx.require(bool(comps), "generate: value collection not found")
+        v = comps[0].args[1]
+        apps = [e for e in r.of_kind("setitem") if e.depth == 0]
     num_alts = []
     isnum = [a for a in tm.atoms(tm.mk_and(*[x.args[0] for x in v.walk()
                                              if x.op == "ite"]))
@@ -818,46 +856,55 @@ def _generate(ctx, prog):
     else:
         ctx.undecidable("C18.7", apps[0], f"number conversion idiom not "
                         f"recognised: {fmt(v)}")
-    # (b) token classification: dash-prefixed AND not a number, everywhere
+    # (b) token classification: a token counts as an option iff it starts
+    # with '-' AND is not a number — as a truth table over the two atoms of
+    # each token, at every decision generate() takes
     formulas = [e.live for e in r.events
-                if e.kind in ("setitem", "setattr", "return") or
+                if (e.kind in ("setitem", "setattr", "return") and
+                    e.depth == 0) or
                 (e.kind == "call" and e.data.get("mutates_recv"))]
-    bare = []
-    sites = 0
+    for e in r.events:
+        v_ = e.data.get("value")
+        if isinstance(v_, T):
+            formulas.extend(x.args[0] for x in v_.walk() if x.op == "ite")
+    toks = {}
     for fm in formulas:
         for n in fm.walk():
             if n.op == "call" and tm.callee_name(n) == ".startswith" and \
                     n.args[1] and tm.is_const(n.args[1][0], "-"):
-                pass
-    seen = set()
-    for fm in formulas:
-        for n in fm.walk():
-            if n.op in ("and", "or", "not") or n is fm:
-                kids = n.args if n.op in ("and", "or", "not") else (n,)
-                for k in kids:
-                    s_ = k
-                    if s_.op == "call" and tm.callee_name(s_) == \
-                            ".startswith" and s_.args[1] and \
-                            tm.is_const(s_.args[1][0], "-"):
-                        tok = tm.method_recv(s_)
-                        want = T("not", tm.call(tm.func(MC + "is_number"),
-                                                (tok,), ()))
-                        key = (s_, n.op)
-                        if key in seen:
-                            continue
-                        seen.add(key)
-                        sites += 1
-                        if not (n.op == "and" and want in n.args):
-                            bare.append(tok)
-    ctx.require(sites >= 3, "generate: dash-prefix tests not found (unknown "
-                "idiom)")
+                toks[tm.method_recv(n)] = n
+    ctx.require(len(toks) >= 2, "generate: dash-prefix tests not found "
+                "(unknown idiom)")
+    bare = []
+    sites = 0
+    for tok, s_atom in toks.items():
+        n_atom = tm.call(tm.func(MC + "is_number"), (tok,), ())
+        matters = False
+        for fm in formulas:
+            if not any(x is s_atom for x in fm.walk()):
+                continue
+            sites += 1
+
+            def val(s_v, n_v):
+                # residual decision once this token's two atoms are fixed
+                return tm.restrict(fm, lambda t: s_v if t is s_atom else (
+                    n_v if t is n_atom else None))
+            neg_number, plain_number, word = val(True, True), \
+                val(False, True), val(False, False)
+            option = val(True, False)
+            if not (neg_number is plain_number is word):
+                bare.append(tok)
+            if option is not word:
+                matters = True
+        if not matters and tok not in bare:
+            bare.append(tok)
     ok = not bare
     ctx.ob("C18.7", g, ok,
-           f"generate: at all {sites} classification sites a token is an "
-           f"option only if it starts with '-' AND is not a number" if ok
+           f"generate: at all {sites} decisions a token is an option only "
+           f"if it starts with '-' AND is not a number" if ok
            else f"generate treats {fmt(bare[0])} as an option whenever it "
-                f"starts with '-': a negative number after an option "
-                f"(--t_offset -0.5) is parsed as a flag",
+                f"starts with '-' (or never): a negative number after an "
+                f"option (--t_offset -0.5) is parsed as a flag",
            key="C18.7:negative-numbers")
     for e in r.of_kind("setitem"):
         if tm.is_const(e.data["value"], True):
